@@ -25,7 +25,10 @@ RULE = ('Generated hierarchical, lattice, hexagonal-lattice and twin-fill '
         'equal parameters, equal parameters with different transforms) go '
         'through remove_duplicate_surfaces; two numbers may be merged only '
         'if type, parameters and transform are equal, and then their '
-        'functions agree in sign on sample points. Non-trivial: the deck has '
+        'functions agree in sign on sample points. Third part: the shipped '
+        'example decks (a quarter of them per quick run, all in thorough) '
+        'under the same 8 combinations, points drawn in boxes sized from the '
+        'written surfaces. Non-trivial: the deck has '
         'a FILL and a duplicate pair and >= 2 outputs differ textually; '
         'distinct = deck text.')
 ASSUMPTIONS = [
@@ -131,11 +134,15 @@ def budget(tier):
 def render_case(case):
     if case.get('unit'):
         return repr(case['surfs'])
+    if case.get('corpus'):
+        return 'shipped deck %s' % case['deck_file']
     return mr.render(case['deck']) + '\nc lattice options: ' + \
         ' '.join(mr.argv_of(case['deck']))
 
 
 def sample_repr(case, out):
+    if case.get('corpus'):
+        return {'deck_file': case['deck_file'], 'labels': out.labels}
     if case.get('unit'):
         return {'surfaces': case['surfs'][:4], 'labels': out.labels}
     return {'deck': mr.render(case['deck']), 'labels': out.labels}
@@ -213,9 +220,121 @@ def check_unit(case):
               counts={'unit_merged': merged})
 
 
+def t4_scale(t4):
+    """Half-width of a box that contains the interesting part of a written
+    geometry, from the numbers on its SURF lines."""
+    vals = [1.0]
+    for srf in t4.surfs.values():
+        for v in (srf.params or []):
+            if isinstance(v, (int, float)) and abs(v) < 5e3:
+                vals.append(abs(float(v)))
+    vals.sort()
+    return min(max(vals[int(0.9 * (len(vals) - 1))] * 1.5, 2.0), 2e3)
+
+
+def check_corpus(case):
+    """Shipped deck under all flag combinations: same provenance and
+    composition at every decided point (points drawn in boxes sized from the
+    written surfaces; no model involved)."""
+    from . import c08
+    from ..runner import skip
+    entry = [e for e in c08.shipped_decks() if e[0] == case['deck_file']]
+    if not entry:
+        return skip('corpus-deck-missing')
+    name, text, flags, _enc = entry[0]
+    labels = ['corpus:' + name]
+    flags = [f for f in flags if f not in FLAGS]
+    while '--max-inline-score' in flags:
+        k = flags.index('--max-inline-score')
+        del flags[k:k + 2]
+    ref = conv.convert(text, flags + ['--skip-deduplication'])
+    if not ref.ok:
+        return skip('corpus-deck-not-converted', labels)
+    t4ref = t4read.parse(ref.t4_text)
+    if len(t4ref.volus) > case.get('max_volumes', 400):
+        return skip('corpus-deck-too-large', labels)
+    B = t4_scale(t4ref)
+    rng = np.random.Generator(np.random.PCG64(case.get('pseed', 1)))
+    n = case.get('points', 240)
+    P = np.vstack([rng.uniform(-B, B, (n // 2, 3)),
+                   rng.uniform(-B / 4, B / 4, (n // 4, 3)),
+                   rng.uniform(-B / 16, B / 16, (n - n // 2 - n // 4, 3))])
+    ref_sigs, ref_dec = signatures(t4ref, P)
+    scores = [None, '-1', '0', '1e9', '0.5', None, '2', '-1']
+    n_diff = 0
+    for combo, score in zip(itertools.product([False, True], repeat=3),
+                            scores):
+        argv = list(flags) + [f for f, on in zip(FLAGS, combo) if on]
+        if score is not None:
+            argv += ['--max-inline-score', score]
+        res = conv.convert(text, argv)
+        tag = '+'.join(f[2:] for f, on in zip(FLAGS, combo) if on) or 'default'
+        if not res.ok:
+            return violation('corpus-crash:%s' % res.crash_key(),
+                             {'error': res.brief(), 'deck_file': name,
+                              'argv': argv}, labels)
+        t4 = t4read.parse(res.t4_text)
+        if res.t4_text != ref.t4_text:
+            n_diff += 1
+        sigs, dec = signatures(t4, P)
+        both = ref_dec & dec
+        for i in np.nonzero(both)[0]:
+            if sigs[i] != ref_sigs[i]:
+                return violation('options-change-geometry:corpus:%s' % tag,
+                                 {'point': [float(v) for v in P[i]],
+                                  'reference': repr(ref_sigs[i]),
+                                  'with_options': repr(sigs[i]),
+                                  'argv': argv, 'deck_file': name}, labels)
+    inside = sum(1 for sg in ref_sigs if sg)
+    return ok(labels, n_diff >= 1 and inside >= 10, sig=case_sig(name),
+              counts={'corpus_conversions': 9, 'corpus_points': len(P),
+                      'corpus_points_in_a_volume': inside})
+
+
+def _corpus_worker(case):
+    try:
+        out = check_corpus(case)
+    except Exception as exc:       # reader / evaluator limits on real decks
+        from ..runner import skip
+        out = skip('corpus-harness-limit:%s' % type(exc).__name__,
+                   ['corpus:' + case['deck_file']])
+    conv.cleanup()
+    return case, out
+
+
+def extra(tier, seed, stats):
+    import multiprocessing
+    import os
+    from . import c08
+    names = [e[0] for e in c08.shipped_decks() if e[3] == 'utf-8']
+    if tier == 'quick':
+        names = names[seed % 4::4]
+    cases = [{'corpus': True, 'deck_file': nm, 'pseed': seed,
+              'points': 240 if tier == 'quick' else 800,
+              'max_volumes': 400 if tier == 'quick' else 3000}
+             for nm in names]
+    ctx = multiprocessing.get_context('fork')
+    with ctx.Pool(min(16, os.cpu_count() or 1)) as pool:
+        results = pool.map(_corpus_worker, cases, chunksize=1)
+    found = {}
+    for case, out in results:
+        stats.counts['extra_evaluations'] += 1
+        stats.labels.update(['corpus-deck'])
+        stats.counts.update(out.counts)
+        if out.kind == 'skip':
+            stats.skipped[out.bucket] += 1
+        elif out.kind == 'violation':
+            found.setdefault(out.bucket, (case, out.detail))
+        elif out.nontrivial:
+            stats.counts['extra_nontrivial'] += 1
+    return found
+
+
 def check(case):
     if case.get('unit'):
         return check_unit(case)
+    if case.get('corpus'):
+        return check_corpus(case)
     deck = case['deck']
     text = mr.render(deck)
     labels = list(case['labels'])
